@@ -155,6 +155,135 @@ theorem meanStat_out_train (st : State ℝ) (B S : Nat) (x : T3 ℝ) (ht : st.tr
     (j := j) (by rw [ht']; exact hj)
   simpa [meanStat, blocks] using this
 
+/-! ### instance mode: the same, per sample -/
+
+/-- the factor every component of copy `u` of sample `b` is multiplied with in instance mode -/
+noncomputable def instScale (o : Opts ℝ) (st : State ℝ) (S : Nat) (x : T3 ℝ) (blk : Block) (b u : Nat) : ℝ :=
+  1 / Real.sqrt (sampleStat o S blk (centredInst o S x blk) b u + o.eps)
+    * (if o.affine then st.weight (blk.iw + u) else 1)
+
+theorem blockOut_inst (st : State ℝ) (B S : Nat) (x : T3 ℝ) (blk : Block) (hi : o.inst = true) (b s u i : Nat) :
+    blockOut o st B S x blk b s u i
+      = centredInst o S x blk b s u i * instScale o st S x blk b u + biasTerm o st blk u := by
+  simp only [blockOut, centredOf_inst o st B S x blk hi, normOf_inst o st B S blk _ hi,
+    scaleOf, instScale, biasTerm, one_real, Scalar.sqrt_real, bidx, hi, if_true]
+  cases o.affine <;> cases o.includeBias <;> cases blk.isScalar <;> simp
+
+section blockInst
+variable (st : State ℝ) (B S : Nat) (x : T3 ℝ) {blk : Block} (hb : blk ∈ blocks o) {u : Nat} (hu : u < blk.mul)
+  (hi : o.inst = true) (hS : 0 < S)
+
+include hS hi in
+theorem centredInst_sum_zero (hs : blk.isScalar = true) (b : Nat) :
+    ∑ s ∈ range S, centredInst o S x blk b s u 0 = 0 := by
+  simp only [centredInst, centred, hs, if_true, instMean, sumN_real, Scalar.ofNat_real,
+    sum_sub_distrib, sum_const, card_range, nsmul_eq_mul, bidx, hi]
+  have h2 : (S : ℝ) ≠ 0 := by positivity
+  field_simp
+  ring
+
+include hb hu hi in
+theorem field_out_inst (b s : Nat) {i : Nat} (hi' : i < blk.d) :
+    field (forwardCore o st B S x).2 blk b s u i
+      = centredInst o S x blk b s u i * instScale o st S x blk b u + biasTerm o st blk u := by
+  rw [forwardCore_out, field_assemble o _ hb b s hu hi', blockOut_inst st B S x blk hi]
+
+include hb hu hi hS in
+/-- instance-mode output: the per-sample mean of an even-scalar feature is its bias -/
+theorem instMean_out (hs : blk.isScalar = true) (b : Nat) :
+    instMean S (field (forwardCore o st B S x).2 blk) b u = biasTerm o st blk u := by
+  have hd := (scalar_d o.affine o.includeBias o.irreps 0 0 0 0 0 0 blk hb)
+  simp only [instMean, sumN_real, Scalar.ofNat_real]
+  have : ∀ s, field (forwardCore o st B S x).2 blk b s u 0
+      = centredInst o S x blk b s u 0 * instScale o st S x blk b u + biasTerm o st blk u :=
+    fun s => field_out_inst st B S x hb hu hi b s hd.1
+  simp only [this, sum_add_distrib, ← sum_mul, sum_const, card_range, nsmul_eq_mul,
+    centredInst_sum_zero S x hi hS hs]
+  have h2 : (S : ℝ) ≠ 0 := by positivity
+  field_simp
+  ring
+
+include hb hu hi hS in
+theorem centredInst_out (b s : Nat) {i : Nat} (hi' : i < blk.d) :
+    centredInst o S (forwardCore o st B S x).2 blk b s u i
+      = centredInst o S x blk b s u i * instScale o st S x blk b u := by
+  cases hs : blk.isScalar
+  · have e : centredInst o S (forwardCore o st B S x).2 blk b s u i
+        = field (forwardCore o st B S x).2 blk b s u i := by
+      simp [centredInst, centred, hs]
+    rw [e, field_out_inst st B S x hb hu hi b s hi']
+    simp [biasTerm, hs]
+  · have e : centredInst o S (forwardCore o st B S x).2 blk b s u i
+        = field (forwardCore o st B S x).2 blk b s u i
+          - instMean S (field (forwardCore o st B S x).2 blk) b u := by
+      simp [centredInst, centred, hs, bidx, hi]
+    rw [e, field_out_inst st B S x hb hu hi b s hi', instMean_out st B S x hb hu hi hS hs]
+    ring
+
+include hb hu hi hS in
+/-- instance-mode output: the per-sample statistic of the output is `w² v_b / (v_b + eps)` -/
+theorem sampleStat_out_inst (heps : 0 ≤ o.eps) (b : Nat) :
+    sampleStat o S blk (centredInst o S (forwardCore o st B S x).2 blk) b u
+      = (if o.affine then st.weight (blk.iw + u) else 1) ^ 2
+        * sampleStat o S blk (centredInst o S x blk) b u
+        / (sampleStat o S blk (centredInst o S x blk) b u + o.eps) := by
+  have h1 : sampleStat o S blk (centredInst o S (forwardCore o st B S x).2 blk) b u
+      = sampleStat o S blk (fun b s u i => centredInst o S x blk b s u i * instScale o st S x blk b u) b u := by
+    refine sampleStat_congr S blk fun s => compNorm_congr _ _ fun i hi' => ?_
+    exact centredInst_out st B S x hb hu hi hS b s hi'
+  rw [h1, sampleStat_scale S blk _ (fun b u => instScale o st S x blk b u) b u]
+  have hv := sampleStat_nonneg (o := o) S blk (centredInst o S x blk) b u
+  simp only [instScale]
+  rw [inv_sqrt_sq _ _ (by linarith)]
+  ring
+
+end blockInst
+
+theorem instVarStat_out (st : State ℝ) (B S : Nat) (x : T3 ℝ) (hi : o.inst = true)
+    (hS : 0 < S) (heps : 0 ≤ o.eps) (b : Nat) {j : Nat} (hj : j < o.irreps.numIrreps) :
+    instVarStat o S (forwardCore o st B S x).2 b j
+      = (if o.affine then st.weight j else 1) ^ 2 * instVarStat o S x b j / (instVarStat o S x b j + o.eps) := by
+  have hl := layout_irv o.affine o.includeBias o.irreps 0 0 0 0 0 0
+  have ht' := total_irv o.affine o.includeBias o.irreps 0 0 0 0 0 0
+  have := cat_pointwise' (sz := fun blk => blk.mul) (pos := fun blk => blk.irv)
+    (f := fun blk => sampleStat o S blk (centredInst o S (forwardCore o st B S x).2 blk) b)
+    (g := fun blk => sampleStat o S blk (centredInst o S x blk) b)
+    (fun j t => (if o.affine then st.weight j else 1) ^ 2 * t / (t + o.eps)) hl
+    (fun blk hb u hu => by
+      rw [sampleStat_out_inst st B S x hb hu hi hS heps]
+      cases ha : o.affine
+      · simp
+      · have := iw_eq_irv o.includeBias o.irreps 0 0 0 0 0 0 blk (by
+          have hb' : blk ∈ blocksFrom o.affine o.includeBias o.irreps 0 0 0 0 0 0 := hb
+          rwa [ha] at hb')
+        simp only [Nat.add_zero] at this
+        simp [this])
+    (j := j) (by rw [ht']; exact hj)
+  simpa [instVarStat, blocks] using this
+
+theorem instMeanStat_out (st : State ℝ) (B S : Nat) (x : T3 ℝ) (hi : o.inst = true)
+    (hS : 0 < S) (b : Nat) {j : Nat} (hj : j < o.irreps.numScalar) :
+    instMeanStat o S (forwardCore o st B S x).2 b j = if o.affine && o.includeBias then st.bias j else 0 := by
+  have hl := layout_irm o.affine o.includeBias o.irreps 0 0 0 0 0 0
+  have ht' := total_irm o.affine o.includeBias o.irreps 0 0 0 0 0 0
+  have := cat_pointwise' (sz := fun blk => blk.mul) (pos := fun blk => blk.irm)
+    (f := fun blk => instMean S (field (forwardCore o st B S x).2 blk) b)
+    (g := fun blk => instMean S (field x blk) b)
+    (fun j _ => if o.affine && o.includeBias then st.bias j else 0) hl
+    (fun blk hb u hu => by
+      have hb' := List.mem_filter.1 hb
+      have hs : blk.isScalar = true := by simpa using hb'.2
+      rw [instMean_out st B S x hb'.1 hu hi hS hs]
+      simp only [biasTerm, hs, Bool.and_true]
+      cases ha : o.affine <;> cases hib : o.includeBias <;> simp
+      have := ib_eq_irm o.irreps 0 0 0 0 0 0 blk (by
+        have hb'' : blk ∈ blocksFrom o.affine o.includeBias o.irreps 0 0 0 0 0 0 := hb'.1
+        rwa [ha, hib] at hb'')
+      simp only [Nat.add_zero] at this
+      rw [this])
+    (j := j) (by rw [ht']; exact hj)
+  simpa [instMeanStat, blocks] using this
+
 /-! ### eval mode -/
 
 /-- eval mode, feature by feature: the affine map defined by the stored statistics and the parameters -/
